@@ -260,3 +260,191 @@ def weak_orderings(n: int) -> Iterator[Tuple[int, ...]]:
             continue
         seen.add(ranks)
         yield ranks
+
+
+def _unpack_component(value: ast.AST, i: int, n: int) -> Optional[ast.AST]:
+    """closed form of the i-th name in `a, b, .. = value` for divmod / match.span() / match.groups() / literal tuples"""
+    if isinstance(value, (ast.Tuple, ast.List)) and len(value.elts) == n and not any(isinstance(e, ast.Starred) for e in value.elts):
+        return value.elts[i]
+    if isinstance(value, ast.Call) and isinstance(value.func, ast.Name) and value.func.id == "divmod" and len(value.args) == 2 and n == 2:
+        return ast.BinOp(left=value.args[0], op=ast.FloorDiv() if i == 0 else ast.Mod(), right=value.args[1])
+    if isinstance(value, ast.Call) and isinstance(value.func, ast.Attribute) and not value.keywords:
+        recv = value.func.value
+        if value.func.attr == "span" and n == 2 and len(value.args) <= 1 and all(isinstance(a, ast.Constant) and a.value == 0 for a in value.args):
+            return ast.Call(func=ast.Attribute(value=recv, attr="start" if i == 0 else "end", ctx=ast.Load()), args=[], keywords=[])
+        if value.func.attr == "groups" and not value.args:
+            return ast.Call(func=ast.Attribute(value=recv, attr="group", ctx=ast.Load()), args=[ast.Constant(value=i + 1)], keywords=[])
+    return None
+
+
+def single_defs(fn_node) -> Dict[str, ast.AST]:
+    """name -> value for locals bound exactly once in the function (plain or annotated assignment), not parameters."""
+    counts: Dict[str, int] = {}
+    vals: Dict[str, ast.AST] = {}
+
+    def bump(t, k=1):
+        for x in ast.walk(t):
+            if isinstance(x, ast.Name) and isinstance(x.ctx, ast.Store):
+                counts[x.id] = counts.get(x.id, 0) + k
+    for n in walk_local(fn_node):
+        if isinstance(n, ast.Assign):
+            for t in n.targets:
+                bump(t)
+            if len(n.targets) == 1 and isinstance(n.targets[0], ast.Name):
+                vals[n.targets[0].id] = n.value
+            elif len(n.targets) == 1 and isinstance(n.targets[0], ast.Tuple) and all(isinstance(e, ast.Name) for e in n.targets[0].elts):
+                # tuple unpacking of a few well-known pure calls: each name gets its own closed form
+                value = n.value
+                if isinstance(value, ast.Call) and isinstance(value.func, ast.Name) and isinstance(vals.get(value.func.id), ast.Name):
+                    value = ast.Call(func=vals[value.func.id], args=value.args, keywords=value.keywords)  # `_divmod = divmod` style alias
+                for i, e in enumerate(n.targets[0].elts):
+                    comp = _unpack_component(value, i, len(n.targets[0].elts))
+                    if comp is not None:
+                        vals[e.id] = comp
+        elif isinstance(n, ast.AnnAssign):
+            bump(n.target)
+            if isinstance(n.target, ast.Name) and n.value is not None:
+                vals[n.target.id] = n.value
+        elif isinstance(n, ast.AugAssign):
+            bump(n.target, 2)
+        elif isinstance(n, (ast.For, ast.comprehension)):
+            bump(n.target, 2)
+        elif isinstance(n, ast.NamedExpr):
+            bump(n.target, 2)
+        elif isinstance(n, ast.withitem) and n.optional_vars is not None:
+            bump(n.optional_vars, 2)
+        elif isinstance(n, ast.ExceptHandler) and n.name:
+            counts[n.name] = counts.get(n.name, 0) + 2
+    args = fn_node.args
+    params = {a.arg for a in args.posonlyargs + args.args + args.kwonlyargs}
+    if args.vararg:
+        params.add(args.vararg.arg)
+    if args.kwarg:
+        params.add(args.kwarg.arg)
+    return {k: v for k, v in vals.items() if counts.get(k, 0) == 1 and k not in params}
+
+
+def inline(expr: ast.AST, defs: Dict[str, ast.AST], depth: int = 8, keep=()) -> ast.AST:
+    """Copy of `expr` with single-definition locals replaced (recursively) by their defining expressions:
+    a closed form over parameters, attributes and multiply-bound names; insensitive to temporaries and renames."""
+    import copy
+
+    class T(ast.NodeTransformer):
+        def __init__(self, d):
+            self.d = d
+
+        def visit_Name(self, node):
+            if isinstance(node.ctx, ast.Load) and node.id in defs and node.id not in keep and self.d > 0:
+                return T(self.d - 1).visit(copy.deepcopy(defs[node.id]))
+            return node
+
+        def visit_Lambda(self, node):
+            return node
+
+    return T(depth).visit(copy.deepcopy(expr))
+
+
+def helper_closed_return(fn_node) -> Optional[ast.AST]:
+    """Closed-form return expression of a *simple helper*: its body is (docstring,) single-target assignments to fresh
+    local names and exactly one final `return <expr>`; temporaries are inlined. None for anything more complex."""
+    body = list(fn_node.body)
+    if body and isinstance(body[0], ast.Expr) and isinstance(body[0].value, ast.Constant) and isinstance(body[0].value.value, str):
+        body = body[1:]
+    if not body or not isinstance(body[-1], ast.Return) or body[-1].value is None:
+        return None
+    for st in body[:-1]:
+        if isinstance(st, ast.Assign) and len(st.targets) == 1 and isinstance(st.targets[0], ast.Name):
+            continue
+        if isinstance(st, ast.Assign) and len(st.targets) == 1 and isinstance(st.targets[0], ast.Tuple) and all(isinstance(e, ast.Name) for e in st.targets[0].elts):
+            if all(_unpack_component(st.value, i, len(st.targets[0].elts)) is not None for i in range(len(st.targets[0].elts))):
+                continue
+            return None
+        if isinstance(st, ast.AnnAssign) and isinstance(st.target, ast.Name) and st.value is not None:
+            continue
+        return None
+    return inline(body[-1].value, single_defs(fn_node))
+
+
+def substitute_call(fn_node, call: ast.Call, expr: ast.AST, receiver: Optional[ast.AST] = None) -> Optional[ast.AST]:
+    """`expr` (an expression over fn_node's parameters) with the parameters replaced by the arguments of `call`.
+    `receiver` replaces the first parameter (self/cls) for method calls. None when the binding is not straightforward."""
+    import copy
+    a = fn_node.args
+    if a.vararg or a.kwarg:
+        return None
+    params = [p.arg for p in a.posonlyargs + a.args]
+    binding: Dict[str, ast.AST] = {}
+    if receiver is not None:
+        if not params:
+            return None
+        binding[params[0]] = receiver
+        params = params[1:]
+    if len(call.args) > len(params) or any(isinstance(x, ast.Starred) for x in call.args):
+        return None
+    for p, v in zip(params, call.args):
+        binding[p] = v
+    kwonly = [p.arg for p in a.kwonlyargs]
+    for k in call.keywords:
+        if k.arg is None or (k.arg not in params and k.arg not in kwonly) or k.arg in binding:
+            return None
+        binding[k.arg] = k.value
+    defaults = dict(zip([p.arg for p in (a.posonlyargs + a.args)][-len(a.defaults):] if a.defaults else [], a.defaults))
+    for p, d in zip(a.kwonlyargs, a.kw_defaults):
+        if d is not None:
+            defaults[p.arg] = d
+    for p in params + kwonly:
+        if p not in binding:
+            if p in defaults:
+                binding[p] = defaults[p]
+            else:
+                return None
+
+    class T(ast.NodeTransformer):
+        def visit_Name(self, node):
+            if isinstance(node.ctx, ast.Load) and node.id in binding:
+                return copy.deepcopy(binding[node.id])
+            return node
+
+        def visit_Lambda(self, node):
+            return node
+    return T().visit(copy.deepcopy(expr))
+
+
+def concat_parts(e: ast.AST) -> List[Any]:
+    """Normal form of a string-building expression as a list of parts: str literals (adjacent ones merged) and
+    ("expr", <text>) items.  f-strings, `+` concatenation and `x * 2` repetition of a part reduce to the same list."""
+    out: List[Any] = []
+
+    def add(p):
+        if isinstance(p, str):
+            if not p:
+                return
+            if out and isinstance(out[-1], str):
+                out[-1] += p
+                return
+        out.append(p)
+
+    def rec(x):
+        if isinstance(x, ast.JoinedStr):
+            for v in x.values:
+                if isinstance(v, ast.Constant):
+                    add(str(v.value))
+                elif isinstance(v, ast.FormattedValue) and v.conversion == -1 and v.format_spec is None:
+                    rec(v.value)
+                else:
+                    add(("expr", norm(v)))
+        elif isinstance(x, ast.Constant) and isinstance(x.value, str):
+            add(x.value)
+        elif isinstance(x, ast.BinOp) and isinstance(x.op, ast.Add):
+            rec(x.left)
+            rec(x.right)
+        elif isinstance(x, ast.BinOp) and isinstance(x.op, ast.Mult) and isinstance(x.right, ast.Constant) and isinstance(x.right.value, int) and 0 <= x.right.value <= 4:
+            for _ in range(x.right.value):
+                rec(x.left)
+        elif isinstance(x, ast.BinOp) and isinstance(x.op, ast.Mult) and isinstance(x.left, ast.Constant) and isinstance(x.left.value, int) and 0 <= x.left.value <= 4:
+            for _ in range(x.left.value):
+                rec(x.right)
+        else:
+            add(("expr", norm(x)))
+    rec(e)
+    return out
